@@ -30,8 +30,9 @@ register('C08',
          'Coq theorems over every version table satisfying the table primary key: versions = exactly the entity\'s rows, strictly '
          'sorted; for the i-th element index = i, next = (i+1)-th, previous = (i-1)-th, for the subquery fetcher and (under the '
          'validity chain) the validity fetcher; composite keys are lists. The model accessors mirror the emitted SQL and are '
-         'compared with the real accessors on random interleaved tables every run.',
-         COMMON_NOTE + 'Validity navigation assumes the validity chain (C03).',
+         'compared with the real accessors on random interleaved tables every run; every fourth case is end to end: a random write '
+         'program runs through the real ORM and the accessors are read on the table it left, with no chain hypothesis.',
+         COMMON_NOTE + 'Validity navigation assumes the validity chain (C03 proves it for every reachable table); loaded tables violating it are vacuous, tables written by the code never are.',
          'Coq proof (induction over tables, sorting/permutation lemmas) + vm_compute correspondence against the ORM accessors',
          'DESIGN.md §7 C08')
 
@@ -50,7 +51,7 @@ register('C19',
          'column) to the nearest earlier surviving row of the same entity and everything in between was deleted too; the first '
          'version of every entity is kept; a version that differs from its immediate predecessor is kept (A,B,A). The model '
          '(per-entity pass with a last-surviving row) is compared with utils.vacuum (session.deleted and the table after '
-         'commit) on random tables every run.',
+         'commit) on random tables every run, including a joined-table hierarchy vacuumed through its base class (a model row spans both version tables).',
          COMMON_NOTE + 'naturally_equivalent (SQLAlchemy-Utils) is modelled as equality of all non-primary-key columns. The single '
          'ordered pass over all entities is modelled per entity (the passes are independent per key).',
          'Coq proof (induction over the sorted version list with a surviving-predecessor invariant) + vm_compute correspondence against utils.vacuum',
@@ -98,8 +99,10 @@ register('C03',
          'key and every validity-strategy table the chain (inductive invariant, which also shows the version-object cache agrees '
          'with the rows of the current transaction and the package never raises on them). Replayed against the real tables after '
          'every flush/commit/rollback on every run.',
-         COMMON_NOTE + 'Monotone id allocation is the database\'s (modelled as 1+max, compared on every run). Joined-table inheritance is '
-         'covered by the theorem per table id but not yet exercised by the correspondence shapes.',
+         COMMON_NOTE + 'Monotone id allocation is the database\'s (modelled as 1+max, compared on every run). The machine-level theorem assumes '
+         'flat_hier (no joined child tables; single-table inheritance is inside it). Joined-table hierarchies are decided by the correspondence with '
+         'hier_pass (the model of the repaired predecessor lookup through the topmost table) and the observation predicate hier_chain_ok on generated '
+         'histories, including keys that come back as another class of the hierarchy.',
          'Coq proof (table-level chain lemma + inductive machine invariant) + vm_compute replay of recorded traces against the real tables',
          'DESIGN.md §7 C03')
 
@@ -112,7 +115,7 @@ register('C11',
          're-insert with all flush placements up to length 3 (quick) / 4 (thorough) are run on the real code as test inputs '
          'and compared with the model and with the coalescing predicate after every flush.',
          COMMON_NOTE + 'The clause "the row holds the state of the last flushed change" is decided by the C01 check (same model, same '
-         'runs); savepoint-commit points are not generated (savepoints are C06).',
+         'runs); savepoint-commit points are not generated (savepoints are C06). The machine theorems assume flat_hier (no joined child tables).',
          'Coq proof (automaton lemma by induction over the event list + inductive machine invariant) + enumerated and random histories replayed against the real tables',
          'DESIGN.md §7 C11')
 
@@ -175,7 +178,7 @@ register('C07',
          'autoflush) is executed with make_versioned and on an identical unversioned model set and per-operation outcomes and final '
          'application tables are compared; after remove_versioning() further work must add no versioning row and leave no listener.',
          COMMON_NOTE + 'Partial: the data-transparency equation is structural in the model; its content for the code comes from the twin '
-         'run (sampling). Partially loaded polymorphic / deferred objects are not in the generated shapes yet.',
+         'run (sampling). The machine theorems assume flat_hier (no joined child tables); joined hierarchies incl. objects loaded through the base class are covered by the twin run.',
          'Coq proof (simulation between configurations; machine invariant) + twin-run differential testing + vm_compute replay',
          'DESIGN.md §7 C07')
 
@@ -189,7 +192,7 @@ register('C04',
          'compared with the model and with a positional specification. A quarter of the cases are HISTORIES run on the real code '
          '(general, many-to-many heavy, children moved between parents): the version tables are those the package wrote, and every '
          'relationship of every version is additionally compared end to end with the application\'s own tables as they were at the '
-         'commit that ended the version\'s transaction.',
+         'commit that ended the version\'s transaction; the programs include a child deleted and re-created under the same key in one flush (row switch).',
          COMMON_NOTE + 'Single-column keys/foreign keys; custom primaryjoin shapes are not modelled. States violating the declared foreign keys (SQLite does not enforce them) are not judged end to end.',
          'Coq proof (max/filter characterisations shared with C08) + vm_compute correspondence against the ORM relationship accessors',
          'DESIGN.md §7 C04')
@@ -201,11 +204,11 @@ register('C12',
          'excluded column has no counterpart; the key is the parent key plus the non-null transaction column; an end column exactly '
          'under the validity strategy; an operation-type column; one boolean flag column per non-key non-excluded column iff the tracker '
          'is on. Random configurations (types, attributes, key shapes, include/exclude, strategy, manager- and class-level column names, '
-         'table-name format, schema, flat / joined / single-table inheritance, tracker) are built on the real code, the version Table is '
+         'table-name format, schema, flat / joined / single-table inheritance / a many-to-many association table with its own key, payload columns and NOT NULL reference columns, tracker) are built on the real code, the version Table is '
          'reflected into records and compared with `build` and with the property clauses; tables are created and a NULL-filled row '
          'round-tripped; version_class/parent_class are checked to be inverse bijections. The model function `build` IS the code: Gen/SchemaGen.v is regenerated on every build from the current table_builder.py and property_mod_tracker.py by a fail-closed translator and proved equal to it (C12_build_is_the_code).',
          COMMON_NOTE + 'Names, types and formats are numbered injectively per case. "Every other column nullable" is read as every reflected '
-         'parent column outside the key (operation_type is NOT NULL by design). Association version tables are covered by C10\'s shape only.',
+         'parent column outside the key (operation_type is NOT NULL by design). Association version tables are built by the same `build` with no exclusions and no flag columns.',
          'Coq proof (list reasoning over the column list) + reflection of real Table objects evaluated by vm_compute',
          'DESIGN.md §7 C12')
 
@@ -252,8 +255,8 @@ register('C06',
          'injection through before_cursor_execute at statement boundaries of a chosen transaction (quick: first, last, 4 random; '
          'thorough: every boundary), comparing all tables and the manager maps after the rollback with the state before, and the final '
          'tables with the run from which the failed transaction is deleted; savepoint histories (rollback / release / rollback of the '
-         'connection from outside / close with an open savepoint) over several classes, all tables compared after every event.',
-         COMMON_NOTE + 'Process death (torn files) is the database journal\'s business and cannot be exhibited by the model (atomic database by '
+         'connection from outside / close with an open savepoint / a flush FAILING inside the savepoint after a versioned INSERT went through / Core statements on the association table inside the savepoint, begun after a relationship-only flush or a hand-made record) over several classes, all tables compared after every event; per database transaction exactly one record carries all rows written (one_tx) and the association versions replay to the live links (links_replay).',
+         COMMON_NOTE + 'The Layer-B equations assume flat_hier (no joined child tables). Process death (torn files) is the database journal\'s business and cannot be exhibited by the model (atomic database by '
          'assumption). The injected failure is an exception raised before the statement is sent.',
          'Coq proof (state equality + determinism of the step function) + fault enumeration at statement boundaries + vm_compute replay',
          'DESIGN.md §7 C06')
